@@ -224,7 +224,9 @@ class Gen:
         if foreign_tz:
             others = [t for t in C.TZS if t != base["tz"]]
             if r.random() < 0.5:
-                others = C.LOOKALIKE[base["tz"]]  # another zone with the same UTC offset (always or in winter)
+                # another zone with the same UTC offset (always or in winter); a meter that itself sits in a look-alike
+                # zone gets the zones that list it
+                others = C.LOOKALIKE.get(base["tz"]) or [k for k, v in C.LOOKALIKE.items() if base["tz"] in v] or others
             rec["tz"] = r.choice(others)
         if dfam == "hourly" and r.random() < 0.1:
             rec["ghi"] = not base.get("ghi", False)  # feature mismatch on purpose
